@@ -164,7 +164,9 @@ static Spec sized_spec(Rng &r, int t) {
 	}
 	s.coef.resize(tot); for (size_t i = 0; i < tot; i++) s.coef[i] = (float)(1.0 + 0.001 * (double)(i % 100000) + r.U());
 	if (r.coin(0.5)) s.aux.push_back({"AKEY", "42"});
-	s.flavor = "blocks~" + std::to_string(nb);
+	// many auxiliary keys: the primary header outgrows its 36-card block after the coefficient data were written, and cfitsio has to shift the data
+	int naux = 0; if (t % 3 == 2) { naux = 12 + (int)r.below(45); for (int i = 0; i < naux; i++) s.aux.push_back({r.coin(0.5) ? "K" + std::to_string(i) : "A_LONG_KEYWORD_NUMBER_" + std::to_string(i), "value " + std::to_string(i * 7)}); }
+	s.flavor = "blocks~" + std::to_string(nb) + (naux ? ",auxkeys~" + std::to_string(naux) : "");
 	return s;
 }
 static std::vector<unsigned char> image_after(const std::vector<Op> &ops, size_t nops, long cut_bytes /* of op nops, -1 = none */) {
